@@ -281,5 +281,14 @@ func (f *FBaseProcessorFunction) trapError(ctx context.Context, fctx FContext, o
 		f.sendError(ctx, fctx, oprot, APPLICATION_EXCEPTION_RESPONSE_TOO_LARGE, method, err.Error())
 		return nil
 	}
+	// The reply was abandoned part-way (for example the handler returned a
+	// value its Write rejects). Left in the output it is sent truncated, or in
+	// front of the next reply on the connection. If the transport can drop
+	// what it has buffered, answer with INTERNAL_ERROR instead.
+	if r, ok := oprot.Transport().(interface{ Reset() }); ok {
+		r.Reset()
+		resetProtocol(oprot)
+		f.sendError(ctx, fctx, oprot, APPLICATION_EXCEPTION_INTERNAL_ERROR, method, err.Error())
+	}
 	return err
 }
